@@ -184,7 +184,7 @@ func zeroValue(t types.Type) Value {
 			return StringV{}
 		case u.Kind() == types.UnsafePointer:
 			return Ptr{}
-		case u.Kind() == types.UntypedNil:
+		case u.Kind() == types.UntypedNil, u.Kind() == types.Invalid:
 			return nil
 		case u.Info()&types.IsComplex != 0:
 			return Poison{"complex"}
